@@ -908,6 +908,9 @@ func (b *BaseStore) LoadFromSnapshot(ctx context.Context) error {
 		return fmt.Errorf("unable to join log: %w", err)
 	}
 
+	// the whole log is there: the progress catches up with the maximum raised above
+	b.recalculateReplicationStatus(maxClock)
+
 	if err := b.updateIndex(ctx); err != nil {
 		return fmt.Errorf("unable to update index: %w", err)
 	}
